@@ -45,6 +45,11 @@ def entry_state(ex, c, fs):
     st = State()
     ctx = ex.ctx
     ghost = {}
+    builder = c.options.get("entry_builder")
+    if builder is not None:
+        builder(ex, st)
+        st.old = {"env": dict(st.env), "heap": dict(st.heap)}
+        return st
     for p in fs.params:
         if p not in c.params:
             if p in fs.defaults:
@@ -117,6 +122,16 @@ def verify_function(c, extra_options=None):
         ctx.obls.append(Obl(f"{c.short}/vacuity/requires", "vacuity", list(st.pc), z3.BoolVal(True), expect="sat", model=ctx.fm.name))
         if c.entry_hints:
             ex.apply_hints(st, c.entry_hints, fs.path)
+        # parameter terms, kept for turning a solver model into a concrete input (replay)
+        ctx.inputs = []
+        for p, ty in c.params.items():
+            v0 = st.old["env"].get(p)
+            if isinstance(v0, Arr):
+                ctx.inputs.append({"name": p, "type": ty, "term": st.old["heap"][v0.oid], "shape": list(v0.shape)})
+            elif z3.is_expr(v0):
+                ctx.inputs.append({"name": p, "type": ty, "term": v0, "shape": None})
+            else:
+                ctx.inputs.append({"name": p, "type": ty, "const": v0 if isinstance(v0, (int, float, str, bool, type(None))) else None, "shape": None})
         outs = ex.exec_block(fs.body, st)
         res.paths = len(outs)
         missing = set(c.anchors) - getattr(ctx, "anchors_hit", set())
@@ -228,6 +243,7 @@ def verify_portfolio(c, extra_options=None, modes=("naive", "fuel")):
         return res
     for o in res.ctx.obls:
         o.axioms = list(res.ctx.axioms)
+        o.inputs = getattr(res.ctx, "inputs", None)
         o.alternatives = [("noax", _Alt(o.hyps, o.goal, list(res.ctx.fm.axioms)))] if o.expect != "sat" else []
     byid = {o.id: o for o in res.ctx.obls}
     for m in modes[1:]:
